@@ -487,8 +487,12 @@ class Trace:
                 out.append(e)
             elif tag == "method" and e.name in self.sx.repo_method_names and e.name not in _PURE_METHODS and e.name not in MUTATORS and e.name not in POPPERS:
                 out.append(e)  # a method that some class of the repository defines, on a receiver the executor could not resolve
+            elif tag == "method" and e.recv is not None and self.sx.is_repo_object(e.recv, self.fi) and not e.name.startswith("__") and e.name not in ("_replace", "_asdict", "_make"):
+                out.append(e)  # whatever an object of the repository does when called is code of the repository
             elif tag == "lib" and e.func[1] in ("functools.reduce", "itertools.starmap", "itertools.accumulate") and e.args and e.args[0][0] in ("attr", "fn", "lambda", "partial", "param"):
                 out.append(e)  # library functions that call back into the repository
+            elif tag == "builtin" and e.name == "map" and e.result in self.sx.expanded:
+                continue  # the mapped function was applied to every element where the result was consumed
             elif tag == "builtin" and e.name in ("map", "filter", "sorted", "min", "max") and any(a[0] in ("attr", "fn", "lambda", "partial") for a in [*e.args, *[v for _k, v in e.kwargs]]):
                 out.append(e)
         return out
@@ -534,6 +538,7 @@ class SymX:
         self._site: ast.AST | None = None
         self._loop_end: State | None = None
         self._class_consts: dict = {}
+        self.expanded: set = set()  # `map(f, ...)` terms whose function was applied to every element where the result was consumed
 
     # ------------------------------------------------------------------ entry
     def run(self, fi: FuncInfo, args: dict[str, Term] | None = None, self_term: Term | None = None, heap: dict | None = None) -> Trace:
@@ -563,6 +568,7 @@ class SymX:
         self.box_init = {}
         self._iter_loops = {}
         self._class_consts = {}
+        self.expanded = set()
         self._ids = itertools.count(self.first_id)
         self.notes = []
         self.mutable_sites = sites
@@ -1007,6 +1013,8 @@ class SymX:
         else:
             it = self.eval(s.iter, st)
             items = self._display_items(it)
+            if items is None and not (it[0] == "box" and it[3][0] in ("list", "tuple") and not it[3][1]):
+                items = self._elements(it, st)
             if items is not None and 1 <= len(items) <= 6 and not _has_loop_control(s.body):
                 # a loop over a display of known elements is executed element by element
                 for el in items:
@@ -1064,6 +1072,73 @@ class SymX:
             return [("tuple", (k, v)) if view == "items" else v if view == "values" else k for k, v in src[1]]
         if src[0] in ("tuple", "list") and not any(x[0] == "star" for x in src[1]):
             return list(src[1])
+        return None
+
+    def _elements(self, t: Term, st: State, call: "ast.Call | None" = None, limit: int = 6) -> "list[Term] | None":
+        """The elements of a sequence whose length is known where it is written (at most `limit`): displays (with
+        spliced parts), never-mutated containers made from them, list()/tuple()/iter()/reversed() of them, `map(f, ...)`
+        and `zip(...)` over them (with `itertools.repeat` operands), comprehensions without filter over them,
+        NamedTuple instances, generators whose yields are all unconditional."""
+        src = t
+        if src[0] == "box":
+            if not self._never_mutated(src):
+                return None
+            src = src[3]
+        if src[0] == "call" and src[1] in (("builtin", "list"), ("builtin", "tuple"), ("builtin", "iter"), ("builtin", "reversed"), ("builtin", "set")) and src[2] and not src[3]:
+            inner = self._elements(src[2][0], st, call, limit)
+            if inner is None or src[1][1] == "set":
+                return None
+            return inner[::-1] if src[1][1] == "reversed" else inner
+        if src[0] in ("tuple", "list"):
+            out: list[Term] = []
+            for x in src[1]:
+                if x[0] == "star":
+                    inner = self._elements(x[1], st, call, limit)
+                    if inner is None:
+                        return None
+                    out += inner
+                else:
+                    out.append(x)
+            return out if len(out) <= limit else None
+        if src[0] == "new":
+            return self._tuple_fields(src)
+        if src[0] == "mcall" and src[2] in ("items", "values", "keys") and not src[3]:
+            return self._display_items(src)
+        if src[0] == "call" and src[1] in (("builtin", "map"), ("builtin", "zip")) and not src[3]:
+            is_map = src[1][1] == "map"
+            operands = src[2][1:] if is_map else src[2]
+            if not operands or (is_map and src[2][0][0] not in ("cls", "fn", "lambda", "attr", "partial", "bound", "call", "builtin", "lib")):
+                return None
+            cols: list["list[Term] | Term"] = []
+            n = None
+            for a in operands:
+                if a[0] == "call" and a[1] == ("lib", "itertools.repeat") and len(a[2]) == 1:
+                    cols.append(a[2][0])
+                    continue
+                inner = self._elements(a, st, call, limit)
+                if inner is None:
+                    return None
+                cols.append(inner)
+                n = len(inner) if n is None else min(n, len(inner))
+            if n is None:
+                return None
+            rows = [tuple(c[i] if isinstance(c, list) else c for c in cols) for i in range(n)]
+            if is_map:
+                self.expanded.add(src)
+                return [self._apply(src[2][0], row, (), st, call) for row in rows]
+            return [("tuple", row) for row in rows]
+        if src[0] == "comp" and src[1] in ("list", "gen") and len(src[3]) == 1 and not src[3][0][2]:
+            tgt, source, _c = src[3][0]
+            items = self._elements(source, st, call, limit)
+            if items is not None:
+                if tgt[0] == "elem":
+                    return [rewrite(src[2], lambda x, e=e: e if x == tgt else None) for e in items]
+                if tgt[0] == "tuple" and all(e[0] == "tuple" and len(e[1]) == len(tgt[1]) for e in items):
+                    # `for a, b in display_of_pairs`: each target component stands for the matching component of the element
+                    return [rewrite(src[2], lambda x, e=e: dict(zip(tgt[1], e[1])).get(x)) for e in items]
+            return None
+        if src[0] == "yields" and src[1] and len(src[1]) <= limit and all(g == TRUE for g, _v in src[1]):
+            return [v for _g, v in src[1]]
         return None
 
     def _inplace_only(self, body: list[ast.stmt], st: State) -> set[str]:
@@ -1185,8 +1260,8 @@ class SymX:
             return None
         return name, cur[1], stop
 
-    def _bind_iteration(self, target: ast.expr, it: Term, st: State, lid: int) -> None:
-        """Binds the loop target(s) to symbolic elements of the iterated term."""
+    def _iter_source(self, it: Term) -> Term:
+        """The iterated value behind list() / tuple() / iter() wrappers and never-mutated copies."""
         src = it
         while src[0] == "call" and src[1] in (("builtin", "list"), ("builtin", "tuple"), ("builtin", "iter")) and len(src[2]) == 1:
             src = src[2][0]
@@ -1194,36 +1269,11 @@ class SymX:
             src = src[3][2][0]
             while src[0] == "call" and src[1] in (("builtin", "list"), ("builtin", "tuple"), ("builtin", "iter")) and len(src[2]) == 1:
                 src = src[2][0]
-        if src[0] == "yields":
-            # the loop variable is one of the yielded values, under the condition of its yield
-            if src[1]:
-                g = simplify(f_or([g_ for g_, _v in src[1]]))
-                if g != TRUE:
-                    st.pc = st.pc + (g,)
-            self._assign(target, phi(list(src[1])) if src[1] else ("unk", "nothing yielded", 0), st, None)
-            return
-        single = src[3] if src[0] == "box" and self._never_mutated(src) else src
-        if single[0] in ("list", "tuple", "set") and len(single[1]) == 1 and single[1][0][0] != "star":
-            # a display with exactly one element: the loop variable is that element
-            self._assign(target, single[1][0], st, None)
-            return
-        if src[0] == "comp" and src[1] in ("list", "gen", "set"):
-            # iterating a comprehension: the loop variable is the comprehension's element, under its filters
-            for _tg, _it, conds in src[3]:
-                for c in conds:
-                    if c != TRUE:
-                        st.pc = st.pc + (c,)
-            self._assign(target, src[2], st, None)
-            return
-        if src[0] == "call" and src[1] == ("builtin", "map") and len(src[2]) >= 2 and not src[3] and src[2][0][0] in ("cls", "fn", "lambda", "attr", "partial", "bound"):
-            operands = []
-            for a in src[2][1:]:
-                if a[0] == "call" and a[1] == ("lib", "itertools.repeat") and len(a[2]) == 1:
-                    operands.append(a[2][0])
-                else:
-                    operands.append(("elem", a, lid) if len(src[2]) == 2 else ("idx", ("elem", ("call", ("builtin", "zip"), tuple(x for x in src[2][1:] if not (x[0] == "call" and x[1] == ("lib", "itertools.repeat"))), ()), lid), const(len([o for o in operands if o[0] == "idx"]))))
-            self._assign(target, self._apply(src[2][0], tuple(operands), (), st, None), st, None)
-            return
+        return src
+
+    def _bind_iteration(self, target: ast.expr, it: Term, st: State, lid: int) -> None:
+        """Binds the loop target(s) to symbolic elements of the iterated term."""
+        src = self._iter_source(it)
         if src[0] == "call" and src[1] == ("builtin", "zip") and isinstance(target, (ast.Tuple, ast.List)) and len(target.elts) == len(src[2]):
             for i, el in enumerate(target.elts):
                 self._assign(el, ("idx", ("elem", src, lid), const(i)), st, None)
@@ -1232,14 +1282,69 @@ class SymX:
             start = src[2][1] if len(src[2]) > 1 else next((v for k, v in src[3] if k == "start"), const(0))
             j = ("elem", ("call", ("builtin", "range"), (("call", ("builtin", "len"), (src[2][0],), ()),), ()), lid)
             self._assign(target.elts[0], j if is_const(start, 0) else ("binop", "+", j, start), st, None)
-            self._assign(target.elts[1], ("elem", src[2][0], lid), st, None)
+            self._assign(target.elts[1], self._element(src[2][0], st, lid), st, None)
             return
         if src[0] == "mcall" and src[2] == "items" and isinstance(target, (ast.Tuple, ast.List)) and len(target.elts) == 2:
             key = ("elem", src[1], lid)
             self._assign(target.elts[0], key, st, None)
             self._assign(target.elts[1], ("idx", src[1], key), st, None)
             return
-        self._assign(target, ("elem", it, lid), st, None)
+        self._assign(target, self._element(it, st, lid), st, None)
+
+    def _element(self, it: Term, st: State, lid: int) -> Term:
+        """The symbolic element of one iteration over `it` (conditions under which the source produces it are added to the
+        path condition)."""
+        src = self._iter_source(it)
+        if src[0] == "yields":
+            # one of the yielded values, under the condition of its yield
+            if src[1]:
+                g = simplify(f_or([g_ for g_, _v in src[1]]))
+                if g != TRUE:
+                    st.pc = st.pc + (g,)
+            return phi(list(src[1])) if src[1] else ("unk", "nothing yielded", 0)
+        single = src[3] if src[0] == "box" and self._never_mutated(src) else src
+        if single[0] in ("list", "tuple", "set") and len(single[1]) == 1 and single[1][0][0] != "star":
+            return single[1][0]  # a display with exactly one element
+        if src[0] == "comp" and src[1] in ("list", "gen", "set"):
+            # iterating a comprehension: its element, under its filters
+            for _tg, _it, conds in src[3]:
+                for c in conds:
+                    if c != TRUE:
+                        st.pc = st.pc + (c,)
+            return src[2]
+        if src[0] == "phi" and any(self._iter_source(a)[0] in ("comp", "yields", "phi") or self._is_map(self._iter_source(a)) for _g, a in src[1]):
+            # one of several pipelines: the element of each under the condition it was chosen
+            saved = st.pc
+            alts = []
+            for g, a in src[1]:
+                st.pc = saved + (g,)
+                el = self._element(a, st, lid)
+                alts.append((simplify(f_and(st.pc[len(saved):])), el))
+            st.pc = saved
+            total = simplify(f_or([g for g, _e in alts]))
+            if total != TRUE:
+                st.pc = st.pc + (total,)
+            return phi(alts)
+        if self._is_map(src):
+            self.expanded.add(src)
+            moving = [a for a in src[2][1:] if not (a[0] == "call" and a[1] == ("lib", "itertools.repeat") and len(a[2]) == 1)]
+            operands = []
+            for a in src[2][1:]:
+                if a[0] == "call" and a[1] == ("lib", "itertools.repeat") and len(a[2]) == 1:
+                    operands.append(a[2][0])
+                elif len(moving) == 1:
+                    operands.append(self._element(a, st, lid))
+                else:
+                    operands.append(("idx", ("elem", ("call", ("builtin", "zip"), tuple(moving), ()), lid), const(len([o for o in operands if o[0] == "idx"]))))
+            return self._apply(src[2][0], tuple(operands), (), st, None)
+        return ("elem", it, lid)
+
+    @staticmethod
+    def _is_map(src: Term) -> bool:
+        return src[0] == "call" and src[1] == ("builtin", "map") and len(src[2]) >= 2 and not src[3] and (
+            src[2][0][0] in ("cls", "fn", "lambda", "attr", "partial", "bound")
+            or src[2][0][0] == "call" and src[2][0][1][0] == "lib" and src[2][0][1][1].startswith("operator.")
+        )
 
     def _never_mutated(self, box: Term) -> bool:
         site = self.box_site.get(box[1])
@@ -1377,21 +1482,9 @@ class SymX:
         if v[0] == "phi":
             cols = [self._unpack(a, n, st) for _g, a in v[1]]
             return [phi([(g, col[i]) for (g, _a), col in zip(v[1], cols)]) for i in range(n)]
-        if v[0] == "call" and v[1] == ("builtin", "map") and len(v[2]) == 2 and v[2][1][0] in ("tuple", "list") and len(v[2][1][1]) == n:
-            return [self._apply(v[2][0], (x,), (), st, None) for x in v[2][1][1]]
-        src = v[3] if v[0] == "box" and v[3][0] in ("call", "comp") else v
-        while src[0] == "call" and src[1] in (("builtin", "list"), ("builtin", "tuple")) and len(src[2]) == 1:
-            src = src[2][0]
-        if src[0] == "comp" and src[1] in ("list", "gen") and len(src[3]) == 1 and not src[3][0][2]:
-            # a comprehension over a display of exactly n elements: element i is the comprehension's element for the i-th item
-            tgt, it, _conds = src[3][0]
-            elems = self._display_items(it) if it[0] in ("box", "mcall") else (list(it[1]) if it[0] in ("tuple", "list") and not any(x[0] == "star" for x in it[1]) else None)
-            if elems is not None and len(elems) == n:
-                if tgt[0] == "elem":
-                    return [rewrite(src[2], lambda x, e=e: e if x == tgt else None) for e in elems]
-                if tgt[0] == "tuple" and all(e[0] == "tuple" and len(e[1]) == len(tgt[1]) for e in elems):
-                    # `for a, b in display_of_pairs`: each target component stands for the matching component of the element
-                    return [rewrite(src[2], lambda x, e=e: dict(zip(tgt[1], e[1])).get(x)) for e in elems]
+        items = self._elements(v, st)
+        if items is not None and len(items) == n:
+            return items
         return [("idx", v, const(i)) for i in range(n)]
 
     def _augassign(self, s: ast.AugAssign, st: State) -> State:
@@ -1489,6 +1582,12 @@ class SymX:
                     continue
                 out.append(x)
             out.append(items[-1])
+            if len(out) > 1 and all(x[0] == "phi" and all(self.truth(a)[0] == "const" for _g, a in x[1]) for x in out[:-1]):
+                # `<x if g | y if not g> or z` where each alternative decides by itself: x, y or z under the matching condition
+                val = out[-1]
+                for x in reversed(out[:-1]):
+                    val = phi([(g, a if self.truth(a)[1] == (op == "or") else val) for g, a in x[1]])
+                return val
             return out[0] if len(out) == 1 else ("boolop", op, tuple(out))
         if isinstance(e, ast.Compare):
             left = self.eval(e.left, st)
@@ -1666,7 +1765,9 @@ class SymX:
                 return all(simple(x) for x in e.elts)
             if isinstance(e, ast.Call) and isinstance(e.func, (ast.Name, ast.Attribute)) and not e.keywords:
                 fn = e.func.id if isinstance(e.func, ast.Name) else e.func.attr
-                return fn in ("Path", "PurePath", "object", "frozenset", "tuple") and all(simple(x) for x in e.args)
+                return fn in ("Path", "PurePath", "object", "frozenset", "tuple", "maketrans") and all(simple(x) for x in e.args)
+            if isinstance(e, ast.Attribute):
+                return ast.unparse(e) in ("os.sep", "os.path.sep", "os.extsep", "os.curdir", "os.pardir")
             return False
 
         if not simple(expr) or isinstance(expr, ast.List):
@@ -1808,9 +1909,7 @@ class SymX:
         for a in call.args:
             v = self.eval(a, st)
             if v[0] == "star":
-                items = self._display_items(v[1]) if v[1][0] in ("box", "tuple", "list") else None
-                if items is None and v[1][0] == "new":
-                    items = self._tuple_fields(v[1])
+                items = self._elements(v[1], st, call)
                 if items is not None:
                     args += items  # `f(*(a, b))` is `f(a, b)`
                     continue
@@ -1872,15 +1971,24 @@ class SymX:
                     return self._call_repo(meth, call, recv, args, kwargs, st)
                 if meth is not None and args:
                     return self._call_repo(meth, call, args[0], args[1:], kwargs, st)
-            callee = self._resolve(call, st)
-            if callee is None and recv[0] == "new":
-                ci = self.repo.classes.get(recv[1])
-                impls = [i for i in (self.repo.implementations(ci, f.attr) if ci else []) if not i.is_abstract]
-                if ci is not None and len(impls) == 1:
-                    callee = impls[0]
-            if callee is not None:
-                return self._call_repo(callee, call, recv, args, kwargs, st)
-            return self._method(recv, f.attr, args, kwargs, st, call)
+            if isinstance(f.value, ast.Call) and isinstance(f.value.func, ast.Name) and f.value.func.id == "super" and not f.value.args and self.fi.cls is not None and self.frame.self_term is not None:
+                # `super().m(...)`: the next definition of `m` above the class the running method is written in
+                for c in self.repo.mro(self.fi.cls)[1:]:
+                    if f.attr in c.methods:
+                        return self._call_repo(c.methods[f.attr], call, self.frame.self_term, args, kwargs, st)
+            if recv[0] == "phi" and all(a[0] == "new" or is_const(a, None) for _g, a in recv[1]) and sum(a[0] == "new" for _g, a in recv[1]) > 1:
+                # one of several objects made on the way: the method of each is called under the condition it was chosen
+                outs = []
+                saved = st.pc
+                for g, a in recv[1]:
+                    if a[0] != "new":
+                        continue
+                    st.pc = saved + ((g,) if g != TRUE else ())
+                    outs.append((g, self._call_method(a, f.attr, args, kwargs, st, call)))
+                    st.alive = True
+                st.pc = saved
+                return phi(outs)
+            return self._call_method(recv, f.attr, args, kwargs, st, call)
         fterm = self._name(f, st) if isinstance(f, ast.Name) else self.eval(f, st)
         if fterm[0] == "unk" and isinstance(f, ast.Name):
             try:
@@ -1890,6 +1998,55 @@ class SymX:
             if ci is not None:
                 return self._construct(ci.fq, args, kwargs, st, call)
         return self._apply(fterm, args, kwargs, st, call)
+
+    def _call_method(self, recv: Term, name: str, args: tuple, kwargs: tuple, st: State, call: "ast.Call | None") -> Term:
+        callee = None
+        if recv[0] == "new":
+            # the class of an object made on the way is known exactly
+            ci = self.repo.classes.get(recv[1])
+            callee = self.repo.lookup_method(ci, name) if ci is not None else None
+            if callee is not None and (callee.is_abstract or callee.is_property):
+                callee = None
+        elif call is not None:
+            callee = self._resolve(call, st)
+        if callee is not None:
+            return self._call_repo(callee, call, recv, args, kwargs, st)
+        bound = self._partialmethod(recv, name)
+        if bound is not None:
+            # `name = partialmethod(method, ...)` in the class body: the method with the leading / keyword arguments filled in
+            meth, pre_args, pre_kwargs = bound
+            return self._call_repo(meth, call, recv, pre_args + tuple(args), pre_kwargs + tuple(kwargs), st)
+        return self._method(recv, name, args, kwargs, st, call)
+
+    def is_repo_object(self, recv: Term, entry: "FuncInfo | None" = None) -> bool:
+        """An instance of a class of the repository without library base classes: the receiver of the entry point, or an object made on the way."""
+        ci = None
+        if recv[0] == "new":
+            ci = self.repo.classes.get(recv[1])
+        elif recv[0] == "param" and entry is not None and entry.cls is not None and entry.param_names and recv[1] == entry.param_names[0] and not entry.is_staticmethod:
+            ci = entry.cls
+        if ci is None:
+            return False
+        return not any(b not in self.repo.classes and not b.endswith(("ABC", "object", "Protocol", "Generic")) for c in self.repo.mro(ci) for b in c.bases)
+
+    def _partialmethod(self, recv: Term, name: str) -> "tuple[FuncInfo, tuple, tuple] | None":
+        ci = self._class_of_term(recv)
+        if ci is None:
+            return None
+        for c in self.repo.mro(ci):
+            if name in c.methods:
+                return None
+            expr = c.class_attrs.get(name)
+            if expr is None:
+                continue
+            if not (isinstance(expr, ast.Call) and ast.unparse(expr.func).rsplit(".", 1)[-1] == "partialmethod" and expr.args and isinstance(expr.args[0], ast.Name)):
+                return None
+            meth = self.repo.lookup_method(ci, expr.args[0].id)
+            rest = [*expr.args[1:], *[k.value for k in expr.keywords]]
+            if meth is None or any(k.arg is None for k in expr.keywords) or not all(isinstance(a, ast.Constant) for a in rest):
+                return None
+            return meth, tuple(const(a.value) for a in expr.args[1:]), tuple((k.arg, const(k.value.value)) for k in expr.keywords)
+        return None
 
     def _dispatch_overloads(self, callee: FuncInfo) -> "list[tuple[ast.expr, FuncInfo]] | None":
         """(type expression, implementation) of the overloads registered on a functools.singledispatch(method) function."""
@@ -2099,6 +2256,16 @@ class SymX:
             if callee is not None:
                 return self._call_repo(callee, call, recv, args, kwargs, st)
             return self._method(recv, name, args, kwargs, st, call)
+        if fterm[0] == "call" and fterm[1][0] == "lib" and not fterm[3] and len(args) == 1 and not kwargs and fterm[2] and all(a[0] == "const" and isinstance(a[1], str) for a in fterm[2]):
+            if fterm[1][1] == "operator.attrgetter" and len(fterm[2]) == 1 and "." not in fterm[2][0][1]:
+                return self._attr(args[0], fterm[2][0][1], st, None)  # `attrgetter("x")(o)` is `o.x`
+            if fterm[1][1] == "operator.methodcaller" and len(fterm[2]) == 1:
+                callee = self._method_of(args[0], fterm[2][0][1])
+                if callee is not None:
+                    return self._call_repo(callee, call, args[0], (), (), st)
+                return self._method(args[0], fterm[2][0][1], (), (), st, call)
+        if fterm[0] == "call" and fterm[1] == ("lib", "operator.itemgetter") and len(fterm[2]) == 1 and not fterm[3] and len(args) == 1 and not kwargs:
+            return ("idx", args[0], fterm[2][0])
         table = self._dispatch_table(fterm)
         if table is not None:
             # a callable looked up in a display: each entry may be the one that is called (under `key == entry key`)
@@ -2154,7 +2321,7 @@ class SymX:
         obj: Term = ("new", cls_fq, args, kwargs, self.fresh())
         self._record("call", ("cls", cls_fq), None, cls_fq.rsplit(".", 1)[-1], args, kwargs, st, call, obj)
         enter = self.enter_ctor(ci) if ci is not None and self.enter_ctor is not None else (
-            ci is not None and self.entry is not None and not ci.bases and ci is not self.entry.cls and not ci.is_dataclass and (ci.module is self.entry.module or ci.name.startswith("_"))
+            ci is not None and self.entry is not None and (not ci.bases or _private_helper_class(ci)) and ci is not self.entry.cls and not ci.is_dataclass and (ci.module is self.entry.module or ci.name.startswith("_"))
         )
         if ci is not None and enter:
             init = self.repo.lookup_method(ci, "__init__")
@@ -2167,6 +2334,11 @@ class SymX:
             alts = [(g, a) for g, a in recv[1] if not is_const(a, None)]
             if len(alts) == 1:
                 recv = alts[0][1]
+        if name == "format" and recv[0] == "const" and isinstance(recv[1], str) and not kwargs and not any(a[0] == "star" for a in args):
+            # `"{}.{}".format(a, b)` with plain placeholders only: the same text as an f-string
+            pieces = _format_pieces(recv[1], len(args))
+            if pieces is not None:
+                return ("fstr", tuple(const(p_) if isinstance(p_, str) else args[p_[0]] for p_ in pieces))
         if name in POPPERS and not kwargs:
             res: Term = ("elem", recv, self.fresh())
             self._record("mut", ("method", name), recv, name, args, kwargs, st, call, res)
@@ -2236,19 +2408,7 @@ class SymX:
 
     def _elementwise(self, it: Term, st: State, call: ast.Call | None) -> "list[Term] | None":
         """The elements of `map(f, display)`, of a display, or of a comprehension over a display (at most six)."""
-        src = it[3] if it[0] == "box" and self._never_mutated(it) else it
-        if src[0] in ("tuple", "list") and len(src[1]) <= 6 and not any(x[0] == "star" for x in src[1]):
-            return list(src[1])
-        if src[0] == "call" and src[1] == ("builtin", "map") and len(src[2]) == 2:
-            items = self._display_items(src[2][1])
-            if items is not None and len(items) <= 6:
-                return [self._apply(src[2][0], (x,), (), st, call) for x in items]
-        if src[0] == "comp" and src[1] in ("list", "gen", "set") and len(src[3]) == 1 and not src[3][0][2]:
-            tgt, source, _c = src[3][0]
-            items = self._display_items(source)
-            if items is not None and len(items) <= 6 and tgt[0] == "elem":
-                return [rewrite(src[2], lambda x, e=e: e if x == tgt else None) for e in items]
-        return None
+        return self._elements(it, st, call)
 
     def _lib_call(self, fterm: Term, args: tuple, kwargs: tuple, st: State, call: ast.Call | None) -> Term:
         dotted = fterm[1]
@@ -2287,6 +2447,36 @@ _NEVER_NONE_METHODS = {
 }
 _NEVER_NONE_FUNCS = {"str", "list", "tuple", "set", "dict", "sorted", "len", "open", "repr", "int", "bool", "frozenset", "reversed", "zip", "map", "filter", "enumerate", "range"}
 _NEVER_NONE_LIBS = {"ast.parse", "pathlib.Path", "os.fspath", "os.listdir", "os.path.join", "os.path.dirname", "os.path.basename", "os.path.abspath", "os.path.relpath", "os.path.splitext", "os.path.split"}
+
+
+def _format_pieces(fmt: str, nargs: int) -> "list | None":
+    """Literal pieces and (argument index,) of a str.format template that only has `{}` / `{0}` placeholders."""
+    import string
+
+    out: list = []
+    auto = 0
+    try:
+        parsed = list(string.Formatter().parse(fmt))
+    except ValueError:
+        return None
+    for lit, fld, spec, conv in parsed:
+        if lit:
+            out.append(lit)
+        if fld is None:
+            continue
+        if spec or conv:
+            return None
+        if fld == "":
+            idx = auto
+            auto += 1
+        elif fld.isdigit():
+            idx = int(fld)
+        else:
+            return None
+        if idx >= nargs:
+            return None
+        out.append((idx,))
+    return out
 
 
 def _nonempty_str(t: Term) -> bool:
@@ -2466,6 +2656,19 @@ def _is_generator(fi: FuncInfo) -> bool:
     return any(isinstance(n, (ast.Yield, ast.YieldFrom)) for n in own_nodes(fi.node))
 
 
+def _private_helper_class(ci: ClassInfo, repo: "Repo | None" = None) -> bool:
+    if not ci.name.startswith("_"):
+        return False
+    mod = ci.fq.rsplit(".", 1)[0]
+    for b in ci.bases:
+        if b.endswith(("NamedTuple", "object", "ABC", "Protocol")):
+            continue
+        leaf = b.rsplit(".", 1)[-1]
+        if not (leaf.startswith("_") and not leaf.startswith("__") and (b == leaf or b.rsplit(".", 1)[0] == mod)):
+            return False
+    return True
+
+
 def default_policy(entry: FuncInfo | None, caller: FuncInfo, callee: FuncInfo) -> bool:
     """Private helpers, nested callables, module-level functions and methods of the entry point's own class are executed in place;
     public methods of other classes are API boundaries and stay events."""
@@ -2482,6 +2685,6 @@ def default_policy(entry: FuncInfo | None, caller: FuncInfo, callee: FuncInfo) -
         return True
     if entry is not None and callee.module is entry.module and callee.cls is not None and callee.cls is not entry.cls and not callee.cls.bases:
         return True  # helper classes written next to the entry point (not part of a class hierarchy with virtual calls)
-    if callee.cls is not None and callee.cls.name.startswith("_") and all(b.endswith(("NamedTuple", "object")) for b in callee.cls.bases):
-        return True  # private helper classes
+    if callee.cls is not None and _private_helper_class(callee.cls):
+        return True  # private helper classes (and small private hierarchies of them)
     return callee.is_staticmethod or callee.is_classmethod
